@@ -578,6 +578,73 @@ fn log_gc_rollover<const VARIANT: usize>() {
     std::mem::forget(log);
 }
 
+// ---------------------------------------------------------------------------------------------
+// the reader hands its exact cursor to the writer (FrameReader<RollingReader>::into_writer)
+// ---------------------------------------------------------------------------------------------
+pub(crate) fn file_seek_stub(_f: &mut std::fs::File, _pos: std::io::SeekFrom) -> io::Result<u64> {
+    Ok(0)
+}
+
+pub(crate) fn file_read_stub(_f: &mut std::fs::File, _buf: &mut [u8]) -> io::Result<usize> {
+    Ok(0) // end of file: there is no further block
+}
+
+/// A log whose last block (block 2 of the only file) holds ONE entry that leaves exactly TAIL zero
+/// bytes before the block end.  The real frame reader reads it and reaches the end of the log; the
+/// writer it turns into must resume exactly where the reader will look for the next frame header:
+/// right behind the entry whenever a header still fits (TAIL >= 7), else there or at the next block.
+fn resume_cursor<const TAIL: usize>() {
+    mark_case();
+    if TAIL <= 8 {
+        mark_nontrivial();
+    }
+    let len = B - H - TAIL;
+    let mut block: Box<[u8; B]> = Box::new([0u8; B]);
+    let k = crc_const(&[], 1);
+    block[0] = k as u8;
+    block[1] = (k >> 8) as u8;
+    block[2] = (k >> 16) as u8;
+    block[3] = (k >> 24) as u8;
+    block[4] = (len & 0xff) as u8;
+    block[5] = (len >> 8) as u8;
+    block[6] = 1; // Full
+    let tracker = match FileTracker::from_file_numbers(vec![0]) {
+        Some(t) => t,
+        None => panic!(),
+    };
+    let f0 = tracker.first().clone();
+    let dir = Directory::verif_new(tracker);
+    let file = unsafe { std::fs::File::from_raw_fd(3) };
+    let reader = crate::rolling::RollingReader::verif_new(file, dir, f0, 2, block);
+    let mut fr = crate::frame::FrameReader::open(reader);
+    let r1 = fr.read_frame();
+    let ok1 = match &r1 {
+        Ok((_, p)) => p.len() == len,
+        Err(_) => false,
+    };
+    std::mem::forget(r1);
+    assert!(ok1, "the entry in the last block is read back");
+    let r2 = fr.read_frame();
+    let end = r2.is_err();
+    std::mem::forget(r2);
+    assert!(end, "nothing follows the entry");
+    let fw = match fr.into_writer() {
+        Ok(w) => w,
+        Err(e) => {
+            std::mem::forget(e);
+            panic!("into_writer failed");
+        }
+    };
+    let off = fw.get_underlying_wrt().verif_offset();
+    let behind_entry = 2 * B + H + len;
+    if TAIL >= H {
+        assert!(off == behind_entry, "C01/C02/C07: the writer does not resume where the reader expects the next frame header (entries appended after a reopen would be lost)");
+    } else {
+        assert!(off == behind_entry || off == 3 * B, "C07: resume position in a tail too short for a header");
+    }
+    std::mem::forget(fw);
+}
+
 macro_rules! lshard {
     ($name:ident, $unwind:expr, $f:ident $(, $arg:expr)*) => {
         #[kani::proof]
@@ -612,6 +679,24 @@ mod log_shards {
             }
         };
     }
+    macro_rules! resumeshard {
+        ($name:ident, $v:expr) => {
+            #[kani::proof]
+            #[kani::unwind(9)]
+            #[kani::stub(<std::fs::File as std::io::Write>::write, file_write_stub)]
+            #[kani::stub(<std::fs::File as std::io::Seek>::seek, file_seek_stub)]
+            #[kani::stub(<std::fs::File as std::io::Read>::read, file_read_stub)]
+            #[kani::stub(crate::frame::header::crc32, crc_const)]
+            pub(crate) fn $name() {
+                resume_cursor::<{ $v }>()
+            }
+        };
+    }
+    resumeshard!(c07_resume_q_tail7, 7);
+    resumeshard!(c07_resume_q_tail6, 6);
+    resumeshard!(c07_resume_q_tail8, 8);
+    resumeshard!(c07_resume_q_tail0, 0);
+    resumeshard!(c07_resume_q_tail100, 100);
     rollshard!(c06_gcroll_q_trunc, 0);
     rollshard!(c06_gcroll_q_delete, 1);
     include!(concat!(env!("MRECORDLOG_VERIF_HARNESS_DIR"), "/shards_log.rs"));
